@@ -11,8 +11,16 @@
 (*   (3) after dequeuing, a sender whose connection is no longer the live one does not write: it puts   *)
 (*       the request into sendFailQueue, makes sure a live connection exists (ReConnect) and exits.     *)
 (* Fix = FALSE is the code as originally written.                                                       *)
+(* The server endpoint itself may go away and come back (restart: up -> stopping -> down -> starting ->  *)
+(* up; in the two transitional phases a dial may succeed or fail).  A dial that fails is remembered by   *)
+(* ReConnect (lastDialErr; sawFail[r] = a failed dial ended after caller r arrived, i.e. arrived.Before( *)
+(* lastDialEnd)): only a caller that was queued behind the failed dial may share its error without        *)
+(* dialling; everybody else dials.  A call owes nothing while the endpoint is not up.                     *)
 EXTENDS Integers, Sequences, FiniteSets, TLC
-CONSTANTS MaxConn, Reqs, Fix, RedialFirst
+CONSTANTS MaxConn, Reqs, Fix, RedialFirst, MaxRestart, MaxInFlight,
+          Mut    \* "none", or a deliberately wrong design used as a vacuity guard of the properties: "staleDialError" (the remembered dial
+                 \* error is handed to callers that were NOT queued behind the failed dial), "assignClosed" (close(conn) assigns
+                 \* isClosed = (conn is current) instead of only ever setting it)
 Conns == 1..MaxConn
 VARIABLES
   isClosed, cur, nconn,          \* shared connection struct: flag, index of the current TCP connection, connections dialled so far
@@ -21,10 +29,15 @@ VARIABLES
   spc, sm, rpc,                  \* sender pc + held request, receiver pc
   sendQ, failQ, recvq,           \* channel buffers; FIFO of senders parked on sendQ (inner select)
   srvGot, replied,               \* what the server received per connection; requests answered
-  cpc,                           \* caller pc: "idle" | "calling" | "connected" | "enq" | "wait" | "done" | "timedout"
+  cpc,                           \* caller pc: "idle" | "calling" | "connected" | "enq" | "wait" | "done" | "timedout" | "failed" (Send returned the dial error)
+  up, restarts,                  \* the server endpoint: "up" | "stopping" | "down" | "starting"; restarts so far (bounded in the model)
+  lastDialErr, sawFail, ssaw,    \* ReConnect's memory of the last failed dial; per caller / per sender in its hand-over: a failed dial has ended since it arrived
   issuedAfterDead,               \* ghost: requests issued when every earlier connection was already known dead (closed locally), or handed over
   wroteDead, dialHealthy         \* ghosts: a write was attempted on a connection known dead / a dial happened although the current connection was healthy
-vars == <<isClosed, cur, nconn, lclosed, pclosed, connDone, spc, sm, rpc, sendQ, failQ, recvq, srvGot, replied, cpc, issuedAfterDead, wroteDead, dialHealthy>>
+vars == <<isClosed, cur, nconn, lclosed, pclosed, connDone, spc, sm, rpc, sendQ, failQ, recvq, srvGot, replied, cpc, issuedAfterDead, wroteDead, dialHealthy,
+          up, restarts, lastDialErr, sawFail, ssaw>>
+srvvars == <<up, restarts>>
+dialvars == <<lastDialErr, sawFail, ssaw>>
 
 Init ==
   /\ isClosed = TRUE /\ cur = 0 /\ nconn = 0
@@ -34,32 +47,51 @@ Init ==
   /\ sendQ = <<>> /\ failQ = <<>> /\ recvq = <<>>
   /\ srvGot = [k \in Conns |-> {}] /\ replied = {}
   /\ cpc = [r \in Reqs |-> "idle"] /\ issuedAfterDead = {} /\ wroteDead = FALSE /\ dialHealthy = FALSE
+  /\ up = "up" /\ restarts = 0 /\ lastDialErr = FALSE /\ sawFail = [r \in Reqs |-> FALSE] /\ ssaw = [k \in Conns |-> FALSE]
 
 Healthy(k) == k # 0 /\ ~lclosed[k] /\ ~pclosed[k]
 \* c.close(conn), under connLock
-CloseEffect(k) == /\ isClosed' = (IF Fix THEN (isClosed \/ k = cur) ELSE TRUE)
+CloseEffect(k) == /\ isClosed' = (IF Mut = "assignClosed" THEN k = cur ELSE IF Fix THEN (isClosed \/ k = cur) ELSE TRUE)
                   /\ lclosed' = [lclosed EXCEPT ![k] = TRUE]
-\* the dial inside ReConnect (under connLock): a new TCP connection with its receiver and sender goroutines
+\* the dial inside ReConnect (under connLock) succeeded: a new TCP connection with its receiver and sender goroutines
 DialEffect == /\ nconn' = nconn + 1 /\ cur' = nconn + 1 /\ isClosed' = FALSE
-              /\ spc' = [spc EXCEPT ![nconn + 1] = "top"] /\ rpc' = [rpc EXCEPT ![nconn + 1] = "reading"]
+              /\ rpc' = [rpc EXCEPT ![nconn + 1] = "reading"]
               /\ dialHealthy' = (dialHealthy \/ Healthy(cur))
+              /\ lastDialErr' = FALSE
+\* the dial failed: the error and its end time are remembered; whoever has arrived and waits for connLock has "arrived before lastDialEnd"
+DialFailEffect == /\ lastDialErr' = TRUE
+                  /\ sawFail' = [q \in Reqs |-> sawFail[q] \/ cpc[q] = "calling"]
+                  /\ ssaw' = [j \in Conns |-> ssaw[j] \/ spc[j] \in {"handover", "redial"}]
+CanConnect == up # "down"      \* a dial may succeed
+CanRefuse == up # "up"         \* a dial may fail
+InProgress(r) == cpc[r] \notin {"idle", "done", "timedout", "failed"}
 
 \* ---------------------------------------------------------------- caller of request r: Send = ReConnect, then enqueue
 CallStart(r) ==
   /\ cpc[r] = "idle" /\ cpc' = [cpc EXCEPT ![r] = "calling"]
-  \* issued when every earlier connection is known dead: the client owes it a fresh connection
-  /\ issuedAfterDead' = IF nconn >= 1 /\ (\A k \in 1..nconn : lclosed[k]) THEN issuedAfterDead \cup {r} ELSE issuedAfterDead
-  /\ UNCHANGED <<isClosed, cur, nconn, lclosed, pclosed, connDone, spc, sm, rpc, sendQ, failQ, recvq, srvGot, replied, wroteDead, dialHealthy>>
+  /\ sawFail' = [sawFail EXCEPT ![r] = FALSE]          \* arrived := time.Now()
+  \* issued when the endpoint is up and every earlier connection is known dead: the client owes it a fresh connection
+  /\ issuedAfterDead' = IF up = "up" /\ nconn >= 1 /\ (\A k \in 1..nconn : lclosed[k]) THEN issuedAfterDead \cup {r} ELSE issuedAfterDead
+  /\ UNCHANGED <<isClosed, cur, nconn, lclosed, pclosed, connDone, spc, sm, rpc, sendQ, failQ, recvq, srvGot, replied, wroteDead, dialHealthy, srvvars, lastDialErr, ssaw>>
 ReConnectDial(r) ==
-  /\ cpc[r] = "calling" /\ isClosed /\ nconn < MaxConn /\ DialEffect
+  /\ cpc[r] = "calling" /\ isClosed /\ nconn < MaxConn /\ CanConnect /\ DialEffect
+  /\ spc' = [spc EXCEPT ![nconn + 1] = "top"]
   /\ cpc' = [cpc EXCEPT ![r] = "connected"]
-  /\ UNCHANGED <<lclosed, pclosed, connDone, sm, sendQ, failQ, recvq, srvGot, replied, issuedAfterDead, wroteDead>>
+  /\ UNCHANGED <<lclosed, pclosed, connDone, sm, sendQ, failQ, recvq, srvGot, replied, issuedAfterDead, wroteDead, srvvars, sawFail, ssaw>>
+ReConnectDialFail(r) ==     \* the endpoint refuses the connection: Send returns the dial error
+  /\ cpc[r] = "calling" /\ isClosed /\ CanRefuse /\ DialFailEffect
+  /\ cpc' = [cpc EXCEPT ![r] = "failed"]
+  /\ UNCHANGED <<isClosed, cur, nconn, lclosed, pclosed, connDone, spc, sm, rpc, sendQ, failQ, recvq, srvGot, replied, issuedAfterDead, wroteDead, dialHealthy, srvvars>>
+ReConnectShareFail(r) ==    \* queued behind a dial that has just failed: its error is returned without another dial
+  /\ cpc[r] = "calling" /\ isClosed /\ lastDialErr /\ (sawFail[r] \/ Mut = "staleDialError")
+  /\ cpc' = [cpc EXCEPT ![r] = "failed"]
+  /\ UNCHANGED <<isClosed, cur, nconn, lclosed, pclosed, connDone, spc, sm, rpc, sendQ, failQ, recvq, srvGot, replied, issuedAfterDead, wroteDead, dialHealthy, srvvars, dialvars>>
 ReConnectNoDial(r) ==
   /\ cpc[r] = "calling" /\ ~isClosed /\ cpc' = [cpc EXCEPT ![r] = "connected"]
-  /\ UNCHANGED <<isClosed, cur, nconn, lclosed, pclosed, connDone, spc, sm, rpc, sendQ, failQ, recvq, srvGot, replied, issuedAfterDead, wroteDead, dialHealthy>>
+  /\ UNCHANGED <<isClosed, cur, nconn, lclosed, pclosed, connDone, spc, sm, rpc, sendQ, failQ, recvq, srvGot, replied, issuedAfterDead, wroteDead, dialHealthy, srvvars, dialvars>>
 EnqHook(r) ==    \* the caller is about to execute  sendQueue <- msg
   /\ cpc[r] = "connected" /\ cpc' = [cpc EXCEPT ![r] = "enq"]
-  /\ UNCHANGED <<isClosed, cur, nconn, lclosed, pclosed, connDone, spc, sm, rpc, sendQ, failQ, recvq, srvGot, replied, issuedAfterDead, wroteDead, dialHealthy>>
+  /\ UNCHANGED <<isClosed, cur, nconn, lclosed, pclosed, connDone, spc, sm, rpc, sendQ, failQ, recvq, srvGot, replied, issuedAfterDead, wroteDead, dialHealthy, srvvars, dialvars>>
 Enqueue(r) ==
   /\ cpc[r] = "enq"
   /\ IF recvq # <<>>                       \* direct hand-off to the longest-parked sender
@@ -68,10 +100,10 @@ Enqueue(r) ==
             /\ UNCHANGED sendQ
        ELSE sendQ' = Append(sendQ, r) /\ UNCHANGED <<recvq, spc, sm>>
   /\ cpc' = [cpc EXCEPT ![r] = "wait"]
-  /\ UNCHANGED <<isClosed, cur, nconn, lclosed, pclosed, connDone, rpc, failQ, srvGot, replied, issuedAfterDead, wroteDead, dialHealthy>>
+  /\ UNCHANGED <<isClosed, cur, nconn, lclosed, pclosed, connDone, rpc, failQ, srvGot, replied, issuedAfterDead, wroteDead, dialHealthy, srvvars, dialvars>>
 CallTimeout(r) ==
   /\ cpc[r] = "wait" /\ r \notin replied /\ cpc' = [cpc EXCEPT ![r] = "timedout"]
-  /\ UNCHANGED <<isClosed, cur, nconn, lclosed, pclosed, connDone, spc, sm, rpc, sendQ, failQ, recvq, srvGot, replied, issuedAfterDead, wroteDead, dialHealthy>>
+  /\ UNCHANGED <<isClosed, cur, nconn, lclosed, pclosed, connDone, spc, sm, rpc, sendQ, failQ, recvq, srvGot, replied, issuedAfterDead, wroteDead, dialHealthy, srvvars, dialvars>>
 
 \* ---------------------------------------------------------------- sender goroutine of connection k
 RemoveFrom(q, k) == SelectSeq(q, LAMBDA x : x # k)
@@ -80,13 +112,13 @@ STop(k) ==       \* select { case <-connDone: return; default: }
   /\ IF connDone[k] = 1
        THEN connDone' = [connDone EXCEPT ![k] = 0] /\ spc' = [spc EXCEPT ![k] = "exited"]
        ELSE UNCHANGED connDone /\ spc' = [spc EXCEPT ![k] = "pollFail"]
-  /\ UNCHANGED <<isClosed, cur, nconn, lclosed, pclosed, sm, rpc, sendQ, failQ, recvq, srvGot, replied, cpc, issuedAfterDead, wroteDead, dialHealthy>>
+  /\ UNCHANGED <<isClosed, cur, nconn, lclosed, pclosed, sm, rpc, sendQ, failQ, recvq, srvGot, replied, cpc, issuedAfterDead, wroteDead, dialHealthy, srvvars, dialvars>>
 SPollFail(k) ==  \* select { case m = <-sendFailQueue: default: }
   /\ spc[k] = "pollFail"
   /\ IF failQ # <<>>
        THEN failQ' = Tail(failQ) /\ sm' = [sm EXCEPT ![k] = Head(failQ)] /\ spc' = [spc EXCEPT ![k] = "got"]
        ELSE UNCHANGED <<failQ, sm>> /\ spc' = [spc EXCEPT ![k] = "inner"]
-  /\ UNCHANGED <<isClosed, cur, nconn, lclosed, pclosed, connDone, rpc, sendQ, recvq, srvGot, replied, cpc, issuedAfterDead, wroteDead, dialHealthy>>
+  /\ UNCHANGED <<isClosed, cur, nconn, lclosed, pclosed, connDone, rpc, sendQ, recvq, srvGot, replied, cpc, issuedAfterDead, wroteDead, dialHealthy, srvvars, dialvars>>
 SInner(k) ==     \* entering the inner select: take a ready case, else park
   /\ spc[k] = "inner"
   /\ \/ /\ sendQ # <<>>
@@ -101,12 +133,12 @@ SInner(k) ==     \* entering the inner select: take a ready case, else park
      \/ /\ sendQ = <<>> /\ (~Fix \/ (failQ = <<>> /\ connDone[k] = 0))
         /\ recvq' = Append(recvq, k) /\ spc' = [spc EXCEPT ![k] = "parked"]
         /\ UNCHANGED <<sendQ, failQ, sm, connDone>>
-  /\ UNCHANGED <<isClosed, cur, nconn, lclosed, pclosed, rpc, srvGot, replied, cpc, issuedAfterDead, wroteDead, dialHealthy>>
+  /\ UNCHANGED <<isClosed, cur, nconn, lclosed, pclosed, rpc, srvGot, replied, cpc, issuedAfterDead, wroteDead, dialHealthy, srvvars, dialvars>>
 STick(k) ==      \* a parked sender is woken by the 1 s ticker
   /\ spc[k] = "parked"
   /\ recvq' = RemoveFrom(recvq, k)
   /\ spc' = [spc EXCEPT ![k] = IF isClosed THEN "exited" ELSE "top"]
-  /\ UNCHANGED <<isClosed, cur, nconn, lclosed, pclosed, connDone, sm, rpc, sendQ, failQ, srvGot, replied, cpc, issuedAfterDead, wroteDead, dialHealthy>>
+  /\ UNCHANGED <<isClosed, cur, nconn, lclosed, pclosed, connDone, sm, rpc, sendQ, failQ, srvGot, replied, cpc, issuedAfterDead, wroteDead, dialHealthy, srvvars, dialvars>>
 SWake(k) ==      \* (repaired) a parked sender is woken by connDone or by sendFailQueue
   /\ Fix /\ spc[k] = "parked"
   /\ \/ /\ connDone[k] = 1 /\ connDone' = [connDone EXCEPT ![k] = 0] /\ spc' = [spc EXCEPT ![k] = "exited"]
@@ -114,22 +146,23 @@ SWake(k) ==      \* (repaired) a parked sender is woken by connDone or by sendFa
      \/ /\ failQ # <<>> /\ failQ' = Tail(failQ) /\ sm' = [sm EXCEPT ![k] = Head(failQ)] /\ spc' = [spc EXCEPT ![k] = "got"]
         /\ UNCHANGED connDone
   /\ recvq' = RemoveFrom(recvq, k)
-  /\ UNCHANGED <<isClosed, cur, nconn, lclosed, pclosed, rpc, sendQ, srvGot, replied, cpc, issuedAfterDead, wroteDead, dialHealthy>>
+  /\ UNCHANGED <<isClosed, cur, nconn, lclosed, pclosed, rpc, sendQ, srvGot, replied, cpc, issuedAfterDead, wroteDead, dialHealthy, srvvars, dialvars>>
 \* (repaired) after dequeuing: is this sender's connection still the live one?  (under connLock)
 Live(k) == k = cur /\ ~isClosed
 SCheck(k) ==
   /\ spc[k] = "got"
   /\ spc' = [spc EXCEPT ![k] = IF Fix /\ ~Live(k) THEN "handover" ELSE "write"]
+  /\ ssaw' = [ssaw EXCEPT ![k] = FALSE]      \* the hand-over's ReConnect arrives after this check
   \* the decision to write is taken here: it must not be taken for a connection already known (closed locally) to be dead
   /\ wroteDead' = (wroteDead \/ (~(Fix /\ ~Live(k)) /\ lclosed[k] /\ sm[k] \in issuedAfterDead))
   \* a request that the client holds back from a connection it knows to be dead has been saved from the race with the
   \* close: from here on it is the client's job to get it to the server (same obligation as a call issued after the close)
   \* -- unless another connection has been closed by the server and the client has not noticed yet: then the call still
   \* races with THAT close (found with 3 requests: the request is handed to the live sender, whose connection the server
-  \* has already closed; had it been written there it would have been lost just the same)
-  /\ issuedAfterDead' = IF Fix /\ ~Live(k) /\ (\A j \in 1..nconn : pclosed[j] => lclosed[j])
+  \* has already closed; had it been written there it would have been lost just the same) -- and only while the endpoint is up
+  /\ issuedAfterDead' = IF Fix /\ ~Live(k) /\ up = "up" /\ (\A j \in 1..nconn : pclosed[j] => lclosed[j])
                            THEN issuedAfterDead \cup {sm[k]} ELSE issuedAfterDead
-  /\ UNCHANGED <<isClosed, cur, nconn, lclosed, pclosed, connDone, sm, rpc, sendQ, failQ, recvq, srvGot, replied, cpc, dialHealthy>>
+  /\ UNCHANGED <<isClosed, cur, nconn, lclosed, pclosed, connDone, sm, rpc, sendQ, failQ, recvq, srvGot, replied, cpc, dialHealthy, srvvars, lastDialErr, sawFail>>
 SWrite(k) ==     \* conn.Write(m.req): fails on a locally closed connection; on a connection the peer has closed it may
                  \* fail (reset) or "succeed" with the request lost
   /\ spc[k] = "write"
@@ -138,54 +171,79 @@ SWrite(k) ==     \* conn.Write(m.req): fails on a locally closed connection; on 
      \/ /\ ~lclosed[k]
         /\ spc' = [spc EXCEPT ![k] = "top"] /\ sm' = [sm EXCEPT ![k] = 0]
         /\ srvGot' = IF pclosed[k] THEN srvGot ELSE [srvGot EXCEPT ![k] = @ \cup {sm[k]}]
-  /\ UNCHANGED <<isClosed, cur, nconn, lclosed, pclosed, connDone, rpc, sendQ, failQ, recvq, replied, cpc, issuedAfterDead, wroteDead, dialHealthy>>
+  /\ UNCHANGED <<isClosed, cur, nconn, lclosed, pclosed, connDone, rpc, sendQ, failQ, recvq, replied, cpc, issuedAfterDead, wroteDead, dialHealthy, srvvars, dialvars>>
 \* hand-over, RedialFirst = FALSE: sendFailQueue <- m, then ReConnect;  TRUE: ReConnect first (so that a live sender exists
 \* to drain the one-slot failure queue), then sendFailQueue <- m
 SRequeue(k) ==   \* sendFailQueue <- m  (after a write error, or on hand-over)
   /\ spc[k] \in (IF RedialFirst THEN {"requeue", "handover2"} ELSE {"requeue", "handover"}) /\ Len(failQ) < 1
   /\ failQ' = Append(failQ, sm[k]) /\ sm' = [sm EXCEPT ![k] = 0]
   /\ spc' = [spc EXCEPT ![k] = IF spc[k] = "requeue" THEN "closing" ELSE IF RedialFirst THEN "exited" ELSE "redial"]
-  /\ UNCHANGED <<isClosed, cur, nconn, lclosed, pclosed, connDone, rpc, sendQ, recvq, srvGot, replied, cpc, issuedAfterDead, wroteDead, dialHealthy>>
+  /\ UNCHANGED <<isClosed, cur, nconn, lclosed, pclosed, connDone, rpc, sendQ, recvq, srvGot, replied, cpc, issuedAfterDead, wroteDead, dialHealthy, srvvars, dialvars>>
 SClose(k) ==     \* c.close(conn) after a write error; the sender then returns
   /\ spc[k] = "closing" /\ CloseEffect(k) /\ spc' = [spc EXCEPT ![k] = "exited"]
-  /\ UNCHANGED <<cur, nconn, pclosed, connDone, sm, rpc, sendQ, failQ, recvq, srvGot, replied, cpc, issuedAfterDead, wroteDead, dialHealthy>>
-SRedial(k) ==    \* (repaired) hand-over: make sure a live connection exists
+  /\ UNCHANGED <<cur, nconn, pclosed, connDone, sm, rpc, sendQ, failQ, recvq, srvGot, replied, cpc, issuedAfterDead, wroteDead, dialHealthy, srvvars, dialvars>>
+SRedial(k) ==    \* (repaired) hand-over: make sure a live connection exists (ReConnect; its error is only logged)
   /\ spc[k] = (IF RedialFirst THEN "handover" ELSE "redial")
   /\ LET next == IF RedialFirst THEN "handover2" ELSE "exited" IN
-     IF isClosed /\ nconn < MaxConn
-       THEN /\ nconn' = nconn + 1 /\ cur' = nconn + 1 /\ isClosed' = FALSE
-            /\ spc' = [spc EXCEPT ![k] = next, ![nconn + 1] = "top"] /\ rpc' = [rpc EXCEPT ![nconn + 1] = "reading"]
-            /\ dialHealthy' = (dialHealthy \/ Healthy(cur))
-       ELSE spc' = [spc EXCEPT ![k] = next] /\ UNCHANGED <<nconn, cur, isClosed, rpc, dialHealthy>>
-  /\ UNCHANGED <<lclosed, pclosed, connDone, sm, sendQ, failQ, recvq, srvGot, replied, cpc, issuedAfterDead, wroteDead>>
+     \/ /\ isClosed /\ nconn < MaxConn /\ CanConnect /\ DialEffect
+        /\ spc' = [spc EXCEPT ![k] = next, ![nconn + 1] = "top"]
+        /\ UNCHANGED <<sawFail, ssaw>>
+     \/ /\ isClosed /\ CanRefuse /\ DialFailEffect
+        /\ spc' = [spc EXCEPT ![k] = next] /\ UNCHANGED <<nconn, cur, isClosed, rpc, dialHealthy>>
+     \/ /\ (~isClosed \/ nconn >= MaxConn \/ (lastDialErr /\ ssaw[k]))   \* nothing to do / bound of the model / shares the failure it was queued behind
+        /\ spc' = [spc EXCEPT ![k] = next] /\ UNCHANGED <<nconn, cur, isClosed, rpc, dialHealthy, dialvars>>
+  /\ UNCHANGED <<lclosed, pclosed, connDone, sm, sendQ, failQ, recvq, srvGot, replied, cpc, issuedAfterDead, wroteDead, srvvars>>
 
 \* ---------------------------------------------------------------- receiver goroutine of connection k
 RNotice(k) ==    \* Read returns EOF (peer closed) or "use of closed connection" (closed locally): c.close(conn)
   /\ rpc[k] = "reading" /\ (pclosed[k] \/ lclosed[k])
   /\ CloseEffect(k) /\ rpc' = [rpc EXCEPT ![k] = "signal"]
-  /\ UNCHANGED <<cur, nconn, pclosed, connDone, spc, sm, sendQ, failQ, recvq, srvGot, replied, cpc, issuedAfterDead, wroteDead, dialHealthy>>
+  /\ UNCHANGED <<cur, nconn, pclosed, connDone, spc, sm, sendQ, failQ, recvq, srvGot, replied, cpc, issuedAfterDead, wroteDead, dialHealthy, srvvars, dialvars>>
 RSignal(k) ==    \* deferred: connDone <- true
   /\ rpc[k] = "signal" /\ connDone' = [connDone EXCEPT ![k] = 1] /\ rpc' = [rpc EXCEPT ![k] = "exited"]
-  /\ UNCHANGED <<isClosed, cur, nconn, lclosed, pclosed, spc, sm, sendQ, failQ, recvq, srvGot, replied, cpc, issuedAfterDead, wroteDead, dialHealthy>>
+  /\ UNCHANGED <<isClosed, cur, nconn, lclosed, pclosed, spc, sm, sendQ, failQ, recvq, srvGot, replied, cpc, issuedAfterDead, wroteDead, dialHealthy, srvvars, dialvars>>
 
 \* ---------------------------------------------------------------- server: answers what it received, may close a connection on which nothing is unanswered
 Reply(k, r) ==
   /\ r \in srvGot[k] /\ r \notin replied /\ ~pclosed[k] /\ ~lclosed[k] /\ rpc[k] = "reading"
   /\ replied' = replied \cup {r} /\ cpc' = [cpc EXCEPT ![r] = IF cpc[r] = "wait" THEN "done" ELSE cpc[r]]
-  /\ UNCHANGED <<isClosed, cur, nconn, lclosed, pclosed, connDone, spc, sm, rpc, sendQ, failQ, recvq, srvGot, issuedAfterDead, wroteDead, dialHealthy>>
+  /\ UNCHANGED <<isClosed, cur, nconn, lclosed, pclosed, connDone, spc, sm, rpc, sendQ, failQ, recvq, srvGot, issuedAfterDead, wroteDead, dialHealthy, srvvars, dialvars>>
 \* The server may close a connection at any moment at which it owes no answer on it (after any response, idle close,
 \* restart, close notification) -- also while calls are under way on the client side.  A call under way races with the close
 \* (its request may be on its way to that connection): it loses its obligation; it gets one again when the client itself
 \* holds the request back from a connection it knows to be dead (SCheck).  The other two clauses hold for every schedule.
-NoCallInProgress == \A r \in Reqs : cpc[r] \in {"idle", "done", "timedout"}
-ServerClose(k) ==
-  /\ k <= nconn /\ ~pclosed[k] /\ srvGot[k] \subseteq replied
-  /\ pclosed' = [pclosed EXCEPT ![k] = TRUE]
-  /\ issuedAfterDead' = {r \in issuedAfterDead : cpc[r] \in {"idle", "done", "timedout"}}
-  /\ UNCHANGED <<isClosed, cur, nconn, lclosed, connDone, spc, sm, rpc, sendQ, failQ, recvq, srvGot, replied, cpc, wroteDead, dialHealthy>>
+NoCallInProgress == \A r \in Reqs : ~InProgress(r)
+\* lost: requests written to the connection that the server has not read when it closes (in flight: gone with the connection;
+\* the same state as closing first and the write "succeeding" into the void afterwards).  The design model closes with lost = {}.
+ServerCloseLosing(k, lost) ==
+  /\ k <= nconn /\ ~pclosed[k] /\ (srvGot[k] \ lost) \subseteq replied
+  /\ pclosed' = [pclosed EXCEPT ![k] = TRUE] /\ srvGot' = [srvGot EXCEPT ![k] = @ \ lost]
+  /\ issuedAfterDead' = {r \in issuedAfterDead : ~InProgress(r)}
+  /\ UNCHANGED <<isClosed, cur, nconn, lclosed, connDone, spc, sm, rpc, sendQ, failQ, recvq, replied, cpc, wroteDead, dialHealthy, srvvars, dialvars>>
+ServerClose(k) == ServerCloseLosing(k, {})
+\* Restart: the endpoint stops accepting ("stopping": a dial may still get through or already be refused), every connection is
+\* closed and the endpoint refuses connections ("down"), the listener comes back ("starting", then "up").  The premise of the
+\* statement ("the server endpoint is reachable") holds only while it is up: calls under way when it stops lose their obligation,
+\* calls issued while it is not up never get one (they may fail with the dial error or time out).
+ServerStop ==
+  /\ up = "up" /\ restarts < MaxRestart /\ (\A k \in 1..nconn : srvGot[k] \subseteq replied)
+  /\ up' = "stopping" /\ restarts' = restarts + 1
+  /\ issuedAfterDead' = {r \in issuedAfterDead : ~InProgress(r)}
+  /\ UNCHANGED <<isClosed, cur, nconn, lclosed, pclosed, connDone, spc, sm, rpc, sendQ, failQ, recvq, srvGot, replied, cpc, wroteDead, dialHealthy, dialvars>>
+ServerDownLosing(lost) ==    \* the process is gone: whatever connection was still open is closed with it (lost[k]: in flight on k, see above)
+  /\ up = "stopping" /\ (\A k \in 1..nconn : (srvGot[k] \ lost[k]) \subseteq replied)
+  /\ up' = "down" /\ pclosed' = [k \in Conns |-> pclosed[k] \/ k <= nconn] /\ srvGot' = [k \in Conns |-> srvGot[k] \ lost[k]]
+  /\ UNCHANGED <<isClosed, cur, nconn, lclosed, connDone, spc, sm, rpc, sendQ, failQ, recvq, replied, cpc, issuedAfterDead, wroteDead, dialHealthy, restarts, dialvars>>
+ServerDown == ServerDownLosing([k \in Conns |-> {}])
+ServerStart ==
+  /\ up = "down" /\ up' = "starting"
+  /\ UNCHANGED <<isClosed, cur, nconn, lclosed, pclosed, connDone, spc, sm, rpc, sendQ, failQ, recvq, srvGot, replied, cpc, issuedAfterDead, wroteDead, dialHealthy, restarts, dialvars>>
+ServerUp ==
+  /\ up = "starting" /\ up' = "up"
+  /\ UNCHANGED <<isClosed, cur, nconn, lclosed, pclosed, connDone, spc, sm, rpc, sendQ, failQ, recvq, srvGot, replied, cpc, issuedAfterDead, wroteDead, dialHealthy, restarts, dialvars>>
 
 \* steps that need neither the ticker, nor a caller's timeout, nor a new call, nor the server's whim
-Internal == \/ \E r \in Reqs : ReConnectDial(r) \/ ReConnectNoDial(r) \/ EnqHook(r) \/ Enqueue(r)
+Internal == \/ \E r \in Reqs : ReConnectDial(r) \/ ReConnectDialFail(r) \/ ReConnectShareFail(r) \/ ReConnectNoDial(r) \/ EnqHook(r) \/ Enqueue(r)
             \/ \E k \in Conns : STop(k) \/ SPollFail(k) \/ SInner(k) \/ SWake(k) \/ SCheck(k) \/ SWrite(k) \/ SRequeue(k) \/ SClose(k) \/ SRedial(k)
                                 \/ RNotice(k) \/ RSignal(k)
             \/ \E k \in Conns, r \in Reqs : Reply(k, r)
@@ -193,8 +251,12 @@ Internal == \/ \E r \in Reqs : ReConnectDial(r) \/ ReConnectNoDial(r) \/ EnqHook
 \* model it fires when nothing internal can happen any more (a stranded call); without this a "timed-out" request left in
 \* the one-slot failure queue while a live sender was about to take it is an artefact (found with 3 requests).  Trace
 \* validation uses CallTimeout itself, at whatever moment the real run reports it.
-Next == Internal \/ (\E r \in Reqs : CallStart(r)) \/ (~ENABLED Internal /\ \E r \in Reqs : CallTimeout(r))
+\* requests are interchangeable: in the design model they are issued in the order of their numbers (symmetry reduction), at most
+\* MaxInFlight of them under way at a time (a bound of the configuration); trace validation uses CallStart itself
+Next == Internal \/ (\E r \in Reqs : /\ CallStart(r) /\ (\A q \in Reqs : q < r => cpc[q] # "idle")
+                                       /\ Cardinality({q \in Reqs : InProgress(q)}) < MaxInFlight) \/ (~ENABLED Internal /\ \E r \in Reqs : CallTimeout(r))
         \/ (\E k \in Conns : STick(k) \/ ServerClose(k))
+        \/ ServerStop \/ ServerDown \/ ServerStart \/ ServerUp
 Spec == Init /\ [][Next]_vars
 
 \* ---------------------------------------------------------------- properties (C11)
@@ -205,5 +267,11 @@ HealthyNotMarkedClosed == ~(isClosed /\ Healthy(cur)) /\ ~dialHealthy
 \* a call issued after the close is known reaches the server and is answered without the ticker, a timeout or another call
 \* (nconn < MaxConn: the bound on connections is a bound of the model, not of the client)
 NoStranding == (~ENABLED Internal /\ nconn < MaxConn) => \A r \in issuedAfterDead : (cpc[r] \in {"wait", "done"} => r \in replied)
-TypeOK == Len(failQ) <= 1 /\ cur \in 0..MaxConn /\ nconn \in 0..MaxConn
+\* ... and it does not fail with a dial error either: while the endpoint is up nobody is handed the error of an old dial
+NoFailAfterDead == \A r \in issuedAfterDead : cpc[r] # "failed"
+\* lemma of the design (the mirror image of HealthyNotMarkedClosed): a connection known to be dead is never treated as the live
+\* one, whatever the order in which its sender and its receiver report the loss
+DeadNotTreatedAsLive == ~(~isClosed /\ cur # 0 /\ lclosed[cur])
+TypeOK == /\ Len(failQ) <= 1 /\ cur \in 0..MaxConn /\ nconn \in 0..MaxConn
+          /\ up \in {"up", "stopping", "down", "starting"} /\ restarts \in 0..MaxRestart
 =============================================================================
